@@ -74,3 +74,9 @@ chk('C08', 'exploration',
     'instances), element by element with the reference designators, and the converted text with the source. Evidence lists the pop/push transitions observed.',
     'Trusted: the generator\'s intended-path ground truth (vlib/gen_doc.py) and stdlib expat.',
     'runtime round-trip monitor against generator ground truth', 'DESIGN.md 5 C08')
+chk('C09', 'exploration',
+    'The real X12ContextReader iterates generated documents of every selectable map for no loop id, every (quick: sampled) segment-anchored loop id present, the three envelope loops and an absent '
+    'loop id; flat equality with the tokenised source, tree rooting and maximal-run boundaries, ancestor loop ids and the bijection of loop nodes with generated loop instances, iterate order, '
+    'seg_count and cur_line_number are all recounted from the generator\'s ground truth. Held on the (document, loop id) pairs produced.',
+    'Trusted: intended paths / loop instances recorded by vlib/gen_doc.py.',
+    'runtime partition monitor against generator ground truth', 'DESIGN.md 5 C09')
